@@ -269,8 +269,58 @@ def r4_scottish(ctx):
     ctx.check(len(rets) == 1 and astx.u(rets[0].value) == "(profile, seats, cand_list, cand_to_party, ward)" and
               defs.get("profile") == "PreferenceProfile(ballots=tuple(ballots), candidates=tuple(cand_list)).condense_ballots()", f, rets[0] if rets else f.node,
               "returns (profile with the declared candidates, seats, names, parties, ward)", "", "return tuple changed")
-    keep = [n for n in astx.walk_own(f.node) if isinstance(n, ast.If) and bool_key(Normalizer(f.node, inline=False).guard(n.test)) == "truthy(filtered_row)"]
-    ctx.check(len(keep) == 1, f, keep[0] if keep else f.node, "blank rows are skipped, all others kept", "", "blank-row filter changed")
+    _blank_rows(ctx, f)
+
+
+def _blank_rows(ctx, f):
+    """Blank rows: the test that decides whether a row of the reader is stored looks at the row AFTER its empty cells were
+    removed, and that cleaned row is what is stored - a test on the raw cells lets a row of empty cells (`,,,`) through as an
+    empty row, which the metadata reads below index into.  Decided on the reader loop by role, not by the local's name."""
+    pm = astx.parents(f.node)
+    construct = "blank rows are skipped, all others kept"
+    loops = []
+    for n in astx.walk_own(f.node):
+        if isinstance(n, ast.For) and isinstance(n.target, ast.Name):
+            it = astx.unique_def(f.node, n.iter.id) if isinstance(n.iter, ast.Name) else n.iter
+            if isinstance(it, ast.Call) and astx.call_name(it) in ("reader", "csv.reader"):
+                loops.append(n)
+    if len(loops) != 1:
+        ctx.undecided(f, f.node, construct, f"{len(loops)} loops over a csv.reader (one expected)")
+        return
+    lp = loops[0]
+    row = lp.target.id
+    stores = [c for c in astx.calls_in(lp) if isinstance(c.func, ast.Attribute) and c.func.attr == "append" and len(c.args) == 1]
+    if len(stores) != 1:
+        ctx.undecided(f, lp, construct, f"{len(stores)} append calls in the reader loop (one expected)")
+        return
+    st = stores[0]
+    skips = [n for n in ast.walk(lp) if isinstance(n, (ast.Break, ast.Return))]
+    N = Normalizer(f.node, inline=True)
+    conds = [(t, p) for t, p in astx.path_condition(f.node, st, pm) if any(astx.enclosing(t, pm, ast.For) is lp or pm.get(t) is x for x in ast.walk(lp) if isinstance(x, ast.If) and x.test is t)]
+    k = bool_key(N.conj(conds)) if conds else "True"
+    try:
+        stored = N.key(st.args[0])
+    except Exception:  # noqa
+        stored = astx.u(st.args[0])
+    # the helper that converts the cells may do the cleaning: read through a local function called on the stored value
+    helper_src = ""
+    if isinstance(st.args[0], ast.Call) and isinstance(st.args[0].func, ast.Name):
+        for n in ast.walk(f.node):
+            if isinstance(n, ast.FunctionDef) and n.name == st.args[0].func.id and n is not f.node:
+                helper_src = astx.u(n)
+    cleaned_test = "''" in k
+    cleaned_store = "''" in stored or "''" in helper_src
+    if skips:
+        ctx.violated(f, skips[0], construct, f"`{astx.u(skips[0])}` in the reader loop: the rows after it are not read")
+    elif k == "True":
+        ctx.violated(f, st, construct, f"`{astx.u(st)[:70]}` is unconditional: blank rows are stored as empty rows")
+    elif cleaned_test and "''" in stored:
+        ctx.ok(f, st, construct, f"stored under `{k[:90]}`")
+    elif not cleaned_test and re.search(rf"\b{row}\b", k) and set(re.findall(r"[A-Za-z_][A-Za-z_0-9]*", k)) <= {row, "truthy", "len", "gt", "ge", "ne", "not", "eq", "lt", "le", "and", "or"}:
+        ctx.violated(f, st, construct, f"`{astx.u(st)[:70]}` is decided by `{k}`, a test on the raw cells of the row" +
+                     (", while the empty cells are removed afterwards" if cleaned_store else "") + ": a row of empty cells (`,,,`) counts as non-blank and is stored as an empty row")
+    else:
+        ctx.undecided(f, st, construct, f"store `{astx.u(st)[:60]}` under `{k[:90]}`: neither the cleaned-row test nor a raw-row test")
 
 
 def r5_to_csv(ctx):
@@ -344,4 +394,21 @@ FAULTS += [
 ]
 BENIGN = [
     ("empty check via bool()", [(CV, "    if df.empty:\n", "    if bool(df.empty):\n")]),
+]
+
+# blank rows of a Scottish file (role-based clause of C18.R4)
+_ROWS = ("            filtered_row = list(filter(lambda x: x != \"\", row))\n", "                data.append(convert_row(filtered_row))\n")
+FAULTS += [
+    ("blank test on the raw row, cells cleaned by the converter", [
+        (CV, "        return [int(item) if item.isdigit() else item for item in row]\n", "        return [int(item) if item.isdigit() else item for item in row if item != \"\"]\n"),
+        (CV, "            if len(filtered_row) > 0:\n                data.append(convert_row(filtered_row))\n", "            if len(row) > 0:\n                data.append(convert_row(row))\n")], "C18.R4"),
+    ("blank test on the raw row", [(CV, "            if len(filtered_row) > 0:\n", "            if len(row) > 0:\n")], "C18.R4"),
+    ("reading stops at the first blank row", [(CV, "                data.append(convert_row(filtered_row))\n", "                data.append(convert_row(filtered_row))\n            else:\n                break\n")], "C18.R4"),
+]
+BENIGN += [
+    ("cleaned row under another name, by comprehension", [
+        (CV, "            filtered_row = list(filter(lambda x: x != \"\", row))\n", "            cells = [x for x in row if x != \"\"]\n"),
+        (CV, "            if len(filtered_row) > 0:\n                data.append(convert_row(filtered_row))\n", "            if cells:\n                data.append(convert_row(cells))\n")]),
+    ("blank rows skipped with continue", [
+        (CV, "            if len(filtered_row) > 0:\n                data.append(convert_row(filtered_row))\n", "            if not filtered_row:\n                continue\n            data.append(convert_row(filtered_row))\n")]),
 ]
